@@ -1,18 +1,126 @@
 /-
-  Thm/C16.lean — property C16 (step 1: the comparison AS IT IS on the unchanged tree; defect D12).
+  Thm/C16.lean — property C16: templates render and compare by meaning, for any text.
+  Property theorems only; helper lemmas live in Lemmas/Template.lean.
+
+  OBLIGATIONS (audited by `check` with `#print axioms`):
+    eq_total, eq_iff_norm, eq_iff_atoms, eq_refl, eq_symm, eq_trans, eq_split_insensitive,
+    eq_empty_fragment_insensitive, eq_ignores_formatter, norm_normal
 -/
-import EmitModel.Model.Template
+import EmitModel.Lemmas.Template
 
 namespace EmitModel.C16
 open EmitModel.Template
 
-/-- D12a: `[text "aé", hole x] == [text "ab", hole x]` panics (`&at[..2]` cuts `é`). -/
-theorem v0_panics :
-    eqV0 [.text [0x61, 0xc3, 0xa9], .hole [0x78] none] [.text [0x61, 0x62], .hole [0x78] none] = .panic := by
-  simp [eqV0, asLiteral, eqLoopV0, isCharBoundary]
+/-! ## Equality (`PartialEq for Template`, core/src/template.rs:180-273)
 
-/-- D12b: `[text "", hole x] != [hole x]`. -/
-theorem v0_empty_vs_hole : eqV0 [.text [], .hole [0x78] none] [.hole [0x78] none] = .ok false := by
-  simp [eqV0, asLiteral, eqLoopV0]
+`eq` is the model of the code as it is after
+`fix: compare template text fragments as bytes and skip empty fragments in Template equality` (defect D12: before it,
+`[text "aé", hole x] == [text "ab", hole x]` panicked and `[text "", hole x] != [hole x]`; both cases are in
+harness/corpus/c16_eq.txt). Holes are compared by label only — the code ignores the formatter. -/
+
+/-- Equality never panics, for any two part sequences (any bytes, in particular any UTF-8 text cut anywhere). -/
+theorem eq_total (a b : List Part) : eq a b ≠ .panic := by
+  rw [eq_atoms]; simp
+
+/-- Equality is exactly equality of normal forms (`norm` drops empty text parts, merges adjacent text parts and
+    forgets formatters): same holes (by label) in the same positions, same text between them, however split. -/
+theorem eq_iff_norm (a b : List Part) : eq a b = .ok (decide (norm a = norm b)) := by
+  rw [eq_atoms]
+  congr 1
+  rw [Bool.eq_iff_iff]
+  simp [norm_eq_iff_atoms_eq]
+
+/-- The same, on the flattened stream of bytes and holes. -/
+theorem eq_iff_atoms (a b : List Part) : eq a b = .ok (decide (atoms a = atoms b)) := eq_atoms a b
+
+/-- `norm` really produces a normal form: no empty text run, no two adjacent text runs. -/
+def Normal : List Seg → Prop
+  | [] => True
+  | .text t :: r => t ≠ [] ∧ (match r with | .text _ :: _ => False | _ => True) ∧ Normal r
+  | .hole _ :: r => Normal r
+
+theorem norm_normal (ps : List Part) : Normal (norm ps) := by
+  have key : ∀ (t : List UInt8) (r : List Seg), Normal r → Normal (consText t r) := by
+    intro t r hr
+    cases r with
+    | nil => by_cases h : t = [] <;> simp [consText, h, Normal]
+    | cons s r =>
+      cases s with
+      | text u =>
+        simp only [Normal] at hr
+        simp only [consText, Normal]
+        exact ⟨by simp [hr.1], hr.2.1, hr.2.2⟩
+      | hole l =>
+        by_cases h : t = []
+        · simpa [consText, h] using hr
+        · simp only [consText, h, if_false, Normal]
+          exact ⟨h, trivial, hr⟩
+  induction ps with
+  | nil => trivial
+  | cons p ps ih =>
+    cases p with
+    | text t => exact key t _ ih
+    | hole l f => simpa [norm, Normal] using ih
+
+theorem eq_refl (a : List Part) : eq a a = .ok true := by
+  rw [eq_iff_norm]; simp
+
+theorem eq_symm (a b : List Part) : eq a b = eq b a := by
+  rw [eq_iff_norm, eq_iff_norm]
+  congr 1
+  rw [Bool.eq_iff_iff]
+  simp [eq_comm]
+
+theorem eq_trans (a b c : List Part) (hab : eq a b = .ok true) (hbc : eq b c = .ok true) : eq a c = .ok true := by
+  rw [eq_iff_norm] at *
+  simp only [Res.ok.injEq, decide_eq_true_eq] at *
+  rw [hab, hbc]
+
+/-- Splitting a text fragment anywhere (at any byte, so in particular at any character boundary) does not change
+    the template. -/
+theorem eq_split_insensitive (pre post : List Part) (s t : List UInt8) :
+    eq (pre ++ .text (s ++ t) :: post) (pre ++ .text s :: .text t :: post) = .ok true := by
+  rw [eq_iff_atoms]
+  have : ∀ pre, atoms (pre ++ .text (s ++ t) :: post) = atoms (pre ++ .text s :: .text t :: post) := by
+    intro pre
+    induction pre with
+    | nil => simp [atoms]
+    | cons p pre ih => cases p <;> simp [atoms, ih]
+  simp [this]
+
+/-- Inserting an empty text fragment anywhere (also next to a hole, at the start or at the end) does not change the
+    template. -/
+theorem eq_empty_fragment_insensitive (pre post : List Part) :
+    eq (pre ++ post) (pre ++ .text [] :: post) = .ok true := by
+  rw [eq_iff_atoms]
+  have : ∀ pre, atoms (pre ++ post) = atoms (pre ++ .text [] :: post) := by
+    intro pre
+    induction pre with
+    | nil => simp [atoms]
+    | cons p pre ih => cases p <;> simp [atoms, ih]
+  simp [this]
+
+/-- What the code really does with formatters: nothing — two holes with the same label are the same hole. -/
+theorem eq_ignores_formatter (pre post : List Part) (l : List UInt8) (f g : Option Nat) :
+    eq (pre ++ .hole l f :: post) (pre ++ .hole l g :: post) = .ok true := by
+  rw [eq_iff_atoms]
+  have : ∀ pre, atoms (pre ++ .hole l f :: post) = atoms (pre ++ .hole l g :: post) := by
+    intro pre
+    induction pre with
+    | nil => simp [atoms]
+    | cons p pre ih => cases p <;> simp [atoms, ih]
+  simp [this]
+
+/-! Non-vacuity / sanity: the D12 reproducers now compare as the property demands, and unequal things stay unequal. -/
+example : eq [.text [0x61, 0xc3, 0xa9], .hole [0x78] none] [.text [0x61, 0x62], .hole [0x78] none] = .ok false := by
+  rw [eq_iff_norm]; decide
+example : eq [.text [], .hole [0x78] none] [.hole [0x78] none] = .ok true := by
+  rw [eq_iff_norm]; decide
+example : eq [.text [0xc3], .text [0xa9]] [.text [0xc3, 0xa9]] = .ok true := by
+  rw [eq_iff_norm]; decide
+example : eq [.hole [0x78] none] [.text [0x7b, 0x78, 0x7d]] = .ok false := by
+  rw [eq_iff_norm]; decide
+example : eq [.text [0x61], .hole [0x78] none] [.text [0x61], .hole [0x78] none, .hole [0x78] none] = .ok false := by
+  rw [eq_iff_norm]; decide
 
 end EmitModel.C16
